@@ -42,6 +42,15 @@ func (t *c18Tainter) val(kind string) string {
 	default:
 		s = fmt.Sprintf(`zq%04d'zqc%04d onmouseover=zqa%04d "zqb%04d <script>zqe%04d</script> &zqd%04d`, k, k, k, k, k, k)
 	}
+	// some values are long: components may treat long text differently (cut
+	// it, move it into a title attribute, wrap it). The padding is plain words
+	// after the attack string, identical in the twin.
+	switch k % 7 {
+	case 3:
+		s += " " + strings.Repeat("lorem ipsum dolor ", 5) + "end"
+	case 5:
+		s += " " + strings.Repeat("sit amet consectetur ", 16) + "end"
+	}
 	if t.benign {
 		// punctuation that no HTML context cares about, but that every string
 		// routine of the library (name cleaning, file keys, sorting) treats like
@@ -92,7 +101,10 @@ func c18Doc(seed uint64, benign bool) (string, *c18Tainter) {
 		if r.Chance(1, 3) {
 			p.Sex = t.val("sex")
 		}
-		if r.Chance(1, 3) {
+		if r.Chance(1, 6) {
+			p.NoName = true // nameless people are shown by other means (pointer, "Unknown")
+		}
+		if p.NoName || r.Chance(1, 3) {
 			np := t.val("individual-pointer")
 			np = strings.ReplaceAll(np, "@", "a")
 			ptrs[p.Ptr] = np
@@ -220,7 +232,7 @@ func c18N(tier string) int {
 	if tier == "thorough" {
 		return 4000
 	}
-	return 60
+	return 180
 }
 
 func init() {
@@ -230,7 +242,7 @@ func init() {
 		Cases: func(tier string, seed uint64) int { return c18N(tier) },
 		Run:   c18Run,
 		Batch: func(tier string, n int) int { return 2 },
-		Rule: "documents in which every value (given names, surnames, alternative names, GIVN/SURN/NPFX/NSFX/NICK/SPFX/name title, places, date phrases and unparsable dates, notes, event values, TYPE, source titles, source properties at two levels, citations, SEX, custom tags, individual pointers) carries a unique taint token inside one of three attack strings with < > \" ' & ; each document is rendered twice: tainted and as a benign twin whose metacharacters are replaced by HTML-neutral punctuation ! % ( ; ? chosen order-isomorphic in ASCII. " +
+		Rule: "documents in which every value (given names, surnames, alternative names, GIVN/SURN/NPFX/NSFX/NICK/SPFX/name title, places, date phrases and unparsable dates, notes, event values, TYPE, source titles, source properties at two levels, citations, SEX, custom tags, individual pointers - also of individuals without a name) carries a unique taint token inside one of three attack strings (two in seven padded to about 130 and 380 bytes) with < > \" ' & ; each document is rendered twice: tainted and as a benign twin whose metacharacters are replaced by HTML-neutral punctuation ! % ( ; ? chosen order-isomorphic in ASCII. " +
 			"pages: every page of the published site in all three visibility modes, html.DiffPage of two documents (both sort modes, HideEqual on/off), q.HTMLFormatter on 12 queries, Warnings.WriteHTMLTo. monitors (HTML5 tokenizer golang.org/x/net/html): token sequence (type, tag, sorted attribute names) identical to the twin page; no element or attribute named after a taint token, no tainted <script>, no tainted event handler with a quote; well-nested with a tag stack. non-trivial = tainted page containing at least one taint token; distinct by page bytes",
 		Floors: func(a *fw.Agg, tier string) []string {
 			var f []string
